@@ -64,6 +64,8 @@ func (o outcome) same(p outcome) bool {
 
 // ---- C19: a device failure at every byte position -------------------------------------
 
+var sentinelErrs = []error{io.EOF, io.ErrUnexpectedEOF, io.ErrShortWrite, io.ErrClosedPipe, io.ErrNoProgress}
+
 func TestWriteFault(t *testing.T) {
 	rapid.Check(t, func(t *rapid.T) {
 		core.Run(t, "serial/write-fault", func(c *core.Ctx) {
@@ -111,12 +113,18 @@ func TestWriteFault(t *testing.T) {
 				if k < 0 || k > len(full) {
 					continue
 				}
-				for mode := 0; mode < 3; mode++ {
+				for mode := 0; mode < 4; mode++ {
 					short, transient := mode == 1, mode == 2
 					if transient && k == len(full) {
 						continue
 					}
-					sw, err, pi := runInto(c, in, core.WriterPlan{FailAt: k, Short: short, ReaderFrom: rf, Transient: transient})
+					var errValue error
+					if mode == 3 {
+						// the device's error is a value that means "end of input" or the like elsewhere
+						errValue = sentinelErrs[(k+len(full))%len(sentinelErrs)]
+						short = k%2 == 1
+					}
+					sw, err, pi := runInto(c, in, core.WriterPlan{FailAt: k, Short: short, ReaderFrom: rf, Transient: transient, ErrValue: errValue})
 					if pi != nil {
 						c.CheckTotal(in.name, 0, pi, 0)
 					}
@@ -192,7 +200,7 @@ func TestWriteFault(t *testing.T) {
 				c.Probe("real file destination under a size quota")
 			}
 			if len(full) <= limit {
-				core.ExhaustiveDone("C19: every failure position k in [0,len] x {error, short write, one-shot failure} for one artifact", 1)
+				core.ExhaustiveDone("C19: every failure position k in [0,len] x {error, short write, one-shot failure, sentinel error value} for one artifact", 1)
 			}
 			c.Outcome("done")
 			c.Sig("%s/rf%v/len%d", in.name, rf, len(full)/64)
